@@ -143,4 +143,7 @@ def run(ctx):
         for p in progs:
             check_prog(ctx, r, p, n)
     fam.each_bin(per_bin)
+    gen = ctx.family("generic")
+    gen.each_bin(per_bin)
+    ctx.cov["generic_programs"] = len(gen.progs)
     ctx.cov["programs"] = len(fam.progs)
